@@ -550,9 +550,18 @@ class Gen:
                 args = [self.r.randint(1, 9)] if sig else []
                 fn = "drop%s" % name
                 val = self.r.randint(10, 99)
-                form = self.r.randrange(3)
-                body = ["    %s t = new %s(%s);" % (name, name, ", ".join(map(str, args))), '    echo("%s");' % fn]
-                if form == 0:
+                form = self.r.randrange(5)
+                newt = "%s t = new %s(%s);" % (name, name, ", ".join(map(str, args)))
+                body = ["    " + newt, '    echo("%s");' % fn]
+                if form == 3:
+                    # the object lives in the nested block the return leaves: its destructors run while the
+                    # return is pending, and the function must still return
+                    body = ["    if (true) {", "        " + newt, '        echo("%s");' % fn, "        return %d;" % val,
+                            "    }", '    echo("%s.not-returned");' % fn, "    return 0;"]
+                elif form == 4:
+                    body = ["    for (int i = 0; i < 3; i = i + 1) {", "        " + newt, '        echo("%s");' % fn,
+                            "        return %d;" % val, "    }", '    echo("%s.not-returned");' % fn, "    return 0;"]
+                elif form == 0:
                     body.append("    return %d;" % val)
                 elif form == 1:
                     body += ["    if (true) {", "        return %d;" % val, "    }", "    return 0;"]
